@@ -130,7 +130,11 @@ RowBad(r) ==
     [] f = "madctl.seq" -> MadRowBad(FoldLeft(MadStep, MadStart(in[1]), in[2]), out, 165)
     [] f = "orient.word" -> OrientWordBad(in[1], in[2], out)
     [] f = "rotation.try_from_degree" -> IF out[1] = TryFromDegree(in[1]) THEN "" ELSE "angle parsed to the wrong rotation / wrongly accepted or rejected"
-    [] f = "rotation.degree" -> IF out[1] = 90 * in[1] THEN "" ELSE "wrong degree"
+    [] f = "rotation.degree" -> IF out = <<90 * in[1], in[1] \in {0, 2}, in[1] \in {1, 3}>> THEN "" ELSE "wrong degree / is_horizontal / is_vertical"
+    [] f = "refresh.flip" -> LET nv == Cardinality({i \in 1 .. Len(in[3]) : in[3][i] = "fv"})
+                                 nh == Len(in[3]) - nv
+                             IN IF out = <<(in[1] + nv) % 2, (in[2] + nh) % 2>> THEN "" ELSE "refresh-order flip wrong"
+    [] f = "mock.display" -> IF out = <<0, FALSE, 240, 320, FALSE>> THEN "" ELSE "the documented mock display is not a default ILI9341"
     [] f = "rotation.all_angles" ->
          IF \E a \in 0 .. 359 : in[1][a + 1] # TryFromDegree(a) THEN "residue table wrong"
          ELSE IF out[1] # "ok" THEN "try_from_degree panicked for some i32"
